@@ -68,6 +68,10 @@ impl<const KEYSIZE: usize> Key<KEYSIZE> {
   pub fn try_new_random() -> Result<Self, PasetoError> {
     let rng = SystemRandom::new();
     let mut buf = [0u8; KEYSIZE];
+    #[cfg(rusty_paseto_verif)]
+    if crate::verif::rng_fault() {
+      return Err(ring::error::Unspecified.into());
+    }
     rng.fill(&mut buf)?;
     Ok(Self(buf))
   }
